@@ -222,7 +222,9 @@ def run(chk, mode_filter=None, alg_filter=None, only_cells=False, ids=('T2', 'T2
         from . import c12 as _c12
         _c12.run_v9(chk, P, 'T9', lambda fn: 'burst' in fn, 100)
         from . import callctx
-        callctx.rule_call_contexts(chk, P, 'T10', None, 1000)
+        _vt = set(P.variant_tus())
+        # the job / burst dispatch code lives in the nine variant TUs; range checks of common code (error-string lookup, ...) are not its subject
+        callctx.rule_call_contexts(chk, P, 'T10', lambda tu, fn, callee, cargs, atoms: tu in _vt, 1000)
     nvar = 0
     acc_ref = None
     for tu in P.variant_tus():
